@@ -1,6 +1,6 @@
 #!/bin/sh
 # Re-runs the reviewers' probe patches (reviews/*.diff): property-preserving ones must PASS (rc=0), defect-bearing ones
-# must be REPORTED (rc=1). Scratch worktrees only. ~45 minutes.
+# must be REPORTED (rc=1). Scratch worktrees only. ~70 minutes.
 HERE="$(cd "$(dirname "$0")/.." && pwd)"
 export VERIF_SHRINK_S=4
 bad=0
@@ -58,4 +58,22 @@ run 1 F_bs2_skip_filter_uses_last_segment - C11
 run 1 F_bs3_raw_child_iteration_float_string_enums - C16
 run 1 F_bs4_root_container_name_stored_on_definition - C11
 run 1 F_c1_negative_recv_size 3000 C02 C11
+run 0 G_fa2_listing_hex_preview_column - C19
+run 0 G_fa2b_seqflag_shown_with_name - C19
+run 0 G_fa3_vertical_ellipsis_row - C19
+run 0 G_fa3b_ellipsis_row_with_count - C19
+run 1 G_bs1_silent_out_of_range - C19
+run 1 G_bs2_out_of_range_ends_in_logged_traceback - C19
+run 0 G_fa6_packets_module_becomes_package 3000 C02 C19
+run 0 G_fa4_socket_getpeername_in_log 3000 C02 C10
+run 0 G_fa7_headers_only_yields_ccsdspacket 3000 C02
+run 0 G_fa5_iterator_class 3000 C02 C10
+run 0 H_fa1_container_backrefs 600 C11 C16
+run 0 H_fa2_ccsdspacket_userdict 1500 C11
+run 0 H_fa3_framer_iterator_class_with_counters 20000 C12
+run 0 H_fa5_file_prefetch_two_topups 40000 C12
+run 1 H_bs1_public_parse_counter_on_dataclass 2000 C11
+run 1 H_bs2b_dataclass_slots_plus_declared_counter 2000 C11
+run 0 H_bs2a_dataclass_slots_only 600 C11 C16
+run 0 H_probe_early_gap_detection - C12
 exit $bad
